@@ -57,3 +57,21 @@ Proof.
     apply Hfit. exact Hside.
 Qed.
 End P.
+
+Section Flags.
+Context {F : Type} (Op : fops F).
+(* which slices are compressed: exactly those with more than rank_limit rows, or all of them under a non-zero threshold; one
+   (score, loading) pair per slice *)
+Theorem compressed_flags_spec slices thr mr tapes i :
+  length tapes = length slices -> i < length slices ->
+  length (compressed_flags Op slices thr mr tapes) = length slices /\
+  nth i (compressed_flags Op slices thr mr tapes) false = negb ((length (nth i slices []) <=? rank_limit slices mr) && feqb Op thr (f0 Op)).
+Proof.
+  intros Hl Hi. unfold compressed_flags. split; [now rewrite map_length, svd_compress_length|].
+  set (g := fun p : mat F * option (mat F) => match snd p with Some _ => true | None => false end).
+  rewrite (nth_indep _ false (g ([], None))) by (now rewrite map_length, svd_compress_length).
+  rewrite map_nth. rewrite svd_compress_nth by assumption. unfold g, compress_slice.
+  destruct ((length (nth i slices []) <=? rank_limit slices mr) && feqb Op thr (f0 Op)); [reflexivity|].
+  destruct (nth i tapes ([], [], [])) as [[U s] Vh]. reflexivity.
+Qed.
+End Flags.
